@@ -47,11 +47,25 @@ static char *gen_one(int k, int tid, char *err, size_t el)
 	return tok;
 }
 
+/* the usual keyring pattern: the callback picks the key by kid in the shared keyring */
+static int pick_by_kid(jwt_t *jwt, jwt_config_t *config)
+{
+	(void)jwt;
+	config->key = jwks_find_bykid(g_set, (const char *)config->ctx);
+	return config->key ? 0 : 1;
+}
+
 static int verify_one(int k, const char *tok)
 {
 	jwt_checker_t *c = jwt_checker_new();
 	int rc;
-	jwt_checker_setkey(c, JWT_ALG_NONE, jwks_item_get(g_set, 2 * k + 1));
+	static __thread unsigned flip;
+	if (flip++ & 1) {
+		char kid[32];
+		snprintf(kid, sizeof kid, "pub-%d", k);
+		jwt_checker_setcb(c, pick_by_kid, kid);
+	} else
+		jwt_checker_setkey(c, JWT_ALG_NONE, jwks_item_get(g_set, 2 * k + 1));
 	rc = jwt_checker_verify(c, tok);
 	jwt_checker_free(c);
 	return rc;
